@@ -206,6 +206,27 @@ LEAF_SOURCES = [
 ]
 
 
+def private_leaf():
+    """build_leaf's cache directory is pruned by concurrent checks of other properties (it keeps the 30 newest
+    directories): take a private copy of the driver right after building it, rebuild if it vanished in between."""
+    last = None
+    for _ in range(4):
+        path = common.build_leaf("c11_driver", leaf_sources(), "-O0")
+        fd, priv = tempfile.mkstemp(prefix="cbverif-c11-leaf-", dir=common.SCRATCH_ROOT)
+        os.close(fd)
+        try:
+            shutil.copy2(path, priv)
+            os.chmod(priv, 0o755)
+            return priv
+        except OSError as e:
+            last = e
+            try:
+                os.unlink(priv)
+            except OSError:
+                pass
+    raise common.BuildError("leaf driver c11_driver vanished from the shared cache repeatedly: %s" % last)
+
+
 def leaf_sources():
     d = os.path.join(common.REPO, "src/frontend/recursive_parser/parsers")
     return LEAF_SOURCES + sorted("src/frontend/recursive_parser/parsers/" + f for f in os.listdir(d) if f.endswith(".cpp"))
@@ -1340,7 +1361,17 @@ def run(rep):
             except OSError:
                 pass
     common.ensure_model(PROP)
-    leaf = common.build_leaf("c11_driver", leaf_sources(), "-O0")
+    leaf = private_leaf()
+    try:
+        _run_body(rep, seed, tier, quick, lap, cq, proof_broken, new_missing, pinned, leaf)
+    finally:
+        try:
+            os.unlink(leaf)
+        except OSError:
+            pass
+
+
+def _run_body(rep, seed, tier, quick, lap, cq, proof_broken, new_missing, pinned, leaf):
     impl_dir = common.build_impl("plain")
     d = batch([leaf], ["DEFAULTS"])[0].split()[1:]
     defaults = {d[i]: dec(d[i + 1]) for i in range(0, len(d), 2)}
@@ -1600,11 +1631,14 @@ def replay(path):
         return 0 if (g[0], g[1]) == (t[0], t[1]) else 1
     if "request" in c:
         common.ensure_model(PROP)
-        leaf = common.build_leaf("c11_driver", leaf_sources(), "-O0")
-        d = batch([leaf], ["DEFAULTS"])[0].split()[1:]
-        defaults = {d[i]: dec(d[i + 1]) for i in range(0, len(d), 2)}
-        m = batch([common.model_bin(PROP)], [c["request"]])[0]
-        i = batch([leaf], [c["request"]])[0]
+        leaf = private_leaf()
+        try:
+            d = batch([leaf], ["DEFAULTS"])[0].split()[1:]
+            defaults = {d[i]: dec(d[i + 1]) for i in range(0, len(d), 2)}
+            m = batch([common.model_bin(PROP)], [c["request"]])[0]
+            i = batch([leaf], [c["request"]])[0]
+        finally:
+            os.unlink(leaf)
         print("model:", m[:1500])
         print("impl: ", i[:1500])
         return 0 if compare_lines("x", c["request"], m, i, defaults) else 1
